@@ -8,6 +8,7 @@ impl<A: Ord> Edges<A> {
         ensures
             edges_wf(r), // [C13] strictly increasing
             forall|x: A| edges@.contains(x) <==> #[trigger] r.edges@.contains(x), // [C13] exactly the distinct input values
+            strictly_sorted(edges@) ==> r.edges@ == edges@, // [C13,C12] an already strictly increasing collection is kept as it is
 //@at entry
         let ghost v0 = edges@;
 //@at after_call sort_unstable 0
@@ -15,6 +16,10 @@ impl<A: Ord> Edges<A> {
         proof {
             assert(sorted_le(v1));
             lemma_dedup_sorted_ord(v1);
+            if strictly_sorted(v0) {
+                lemma_sorted_perm_unique(v0, v1);
+                lemma_dedup_strict(v1);
+            }
         }
 //@at after_call dedup 0
         proof {
